@@ -343,6 +343,52 @@ def run(ctx):
         run.instance(R4, {"fn": "retrieve_txs", "obligation": "an absent criterion (None) contributes `true`"}, held=none_ok)
         if not none_ok:
             run.finding(Finding(R4, rt.id, "legacy look-up changed: an absent criterion filters entries", site=rt.loc()))
+        # a look-up by log id or by slate id is never answered by the advanced query path (which ignores both ids)
+        adv = {b for b, _t in cfg.find_calls(rt, ADV)}
+        if not adv:
+            run.error("C19.R4: call of apply_advanced_tx_list_filtering not found in retrieve_txs")
+        for pname, pty in (("tx_id", "core::option::Option<u32>"), ("tx_slate_id", "core::option::Option<uuid::Uuid>")):
+            pl_ = c.param(rt, pname, pty)
+            none_edges = set()
+            if pl_ is not None:
+                none_edges |= cfg.local_guard(rt, pl_, kind="option").fail
+                for b, t in rt.calls():
+                    fn_ = t.get("f") or ""
+                    if fn_.endswith("Option::<T>::is_none") or fn_.endswith("Option::<T>::is_some"):
+                        if vf.strip_clones(rt, t["a"][0]) == pl_ or vf.base_local_of_ref(rt, t["a"][0]) == pl_:
+                            g_ = cfg.call_guard(rt, b)
+                            none_edges |= (g_.ok if fn_.endswith("is_none") else g_.fail)
+                # copies of the parameter matched as part of a tuple: (query_args.as_ref(), tx_id) ...
+                for l in range(rt.argc + 1, len(rt.locals)):
+                    if rt.locals[l]["ty"] == rt.locals[pl_]["ty"] and vf.strip_clones(rt, {"c": [l, []]}) == pl_:
+                        none_edges |= cfg.local_guard(rt, l, kind="option").fail
+                # ... or matched as a component of a tuple pattern: switch on discriminant(_t.N), _t = (.., P, ..)
+                for b, bb in enumerate(rt.bbs):
+                    t = bb["t"]
+                    if t["k"] != "sw":
+                        continue
+                    pd = vf.op_place(t["o"])
+                    if pd is None:
+                        continue
+                    for d in rt.defs().get(pd[0], []):
+                        if d[0] != "a" or d[3]["r"]["k"] != "disc":
+                            continue
+                        q = d[3]["r"]["p"]
+                        flds = [e for e in q[1] if isinstance(e, dict) and "f" in e]
+                        if len(flds) != 1:
+                            continue
+                        for d2 in rt.defs().get(q[0], []):
+                            if d2[0] == "a" and d2[3]["r"]["k"] == "agg" and d2[3]["r"].get("ak") == "tuple":
+                                comps = d2[3]["r"]["f"]
+                                n = flds[0]["f"]
+                                if n < len(comps) and vf.strip_clones(rt, comps[n][1]) == pl_:
+                                    for v, tb in t["t"]:
+                                        if v == "0":
+                                            none_edges.add((b, tb))
+            h = bool(adv) and bool(none_edges) and cfg.must_pass(rt, none_edges, adv)[0]
+            run.instance(R4, {"fn": "retrieve_txs", "obligation": "the advanced query path is taken only when %s is None" % pname}, held=h)
+            if not h:
+                run.finding(Finding(R4, rt.id, "a look-up by %s can be answered by the advanced query path, which ignores it" % pname, site=rt.loc()))
         for held, what in ((idc, "entry id compared with tx_id"), (slc, "entry slate id compared with tx_slate_id"), (outc, "outstanding = !confirmed && type in {TxReceived, TxSent, TxReverted}")):
             run.instance(R4, {"fn": "retrieve_txs", "obligation": what}, held=held)
             if not held:
